@@ -18,6 +18,8 @@ func (v *Verifier) builtinModel(s *State, full string, fn *types.Func, recv *Ter
 		return v.modelSlicesDelete(s, args, call)
 	case "slices#Clone", "bytes#Clone":
 		return v.modelClone(s, args, call)
+	case "slices#Concat":
+		return v.modelConcat(s, call)
 	}
 	return nil
 }
@@ -318,4 +320,43 @@ func (v *Verifier) markBaseWrite(ms *loopModSet, e ast.Expr) {
 func (v *Verifier) forallR(vars []*Term, body *Term) *Term {
 	vars, body = v.reindexQuant(append([]*Term(nil), vars...), body)
 	return Forall(vars, body)
+}
+
+// slices.Concat(s1, ..., sk) with explicit arguments: a fresh slice holding the
+// concatenation; nil when the total length is 0 (slices.Grow(nil, 0) is nil).
+func (v *Verifier) modelConcat(s *State, call *ast.CallExpr) []*Term {
+	if call.Ellipsis.IsValid() || len(call.Args) == 0 || len(call.Args) > 6 {
+		unsupported("slices.Concat with a spread argument or too many arguments")
+	}
+	st, ok := v.typeOf(call.Args[0]).Underlying().(*types.Slice)
+	if !ok {
+		unsupported("slices.Concat of non-slices")
+	}
+	parts := make([]*Term, len(call.Args))
+	for i, a := range call.Args {
+		parts[i] = v.name(s, "cc", v.eval(s, a))
+	}
+	name, h, es := v.sliceHeap(s, st.Elem())
+	na := v.fresh("arr", SArr(SInt, es))
+	q := v.fresh("q", SInt)
+	total := IntLit(0)
+	var body *Term = zeroOfSort(es)
+	// build nested ite from the last part backwards
+	starts := make([]*Term, len(parts))
+	for i, p := range parts {
+		starts[i] = total
+		total = Add(total, SLen(p))
+	}
+	for i := len(parts) - 1; i >= 0; i-- {
+		p := parts[i]
+		in := And(Le(starts[i], q), Lt(q, Add(starts[i], SLen(p))))
+		body = Ite(in, Select(v.hsel(s, h, SBase(p)), Add(SOff(p), Sub(q, starts[i]))), body)
+	}
+	s.assume(Forall([]*Term{q}, Eq(Select(na, q), body), mk("select", es, na, q)))
+	s.assume(Le(total, IntLitB(maxLen)))
+	nb := v.allocRef(s)
+	s.heaps[name] = Store(h, nb, na)
+	cp := v.fresh("cap", SInt)
+	s.assume(And(Ge(cp, total), Le(cp, IntLitB(maxLen))))
+	return []*Term{Ite(Eq(total, IntLit(0)), NilSlice, MkSlice(nb, IntLit(0), total, cp))}
 }
